@@ -544,3 +544,106 @@ func runBigC11(c *Ctx) {
 		}
 	}
 }
+
+// bigValues (C04): objects whose serialised form is large (beyond any fixed buffer: 64 KiB,
+// 1 MiB, 3 MiB), repetitive (compresses well) or not, read back on the live handle and on a
+// new one, through Get, All and an unindexed search, and re-indexed by Repair.
+func bigValues(c *Ctx, cfg Cfg, size int, repetitive bool) []Violation {
+	return runBig("C04", cfg, func(b *bigWorld) {
+		body := make([]byte, size)
+		x := uint32(size + 12345)
+		for i := range body {
+			if repetitive {
+				body[i] = "ab"[i%2]
+			} else {
+				x = x*1664525 + 1013904223
+				body[i] = "abcdefghijklmnopqrstuvwxyzABCDEFGHIJKLMNOPQRSTUVWXYZ0123456789-_"[x>>26]
+			}
+		}
+		small := b.insert(1)
+		if small == nil {
+			return
+		}
+		o := &Wide{A: 2, B: wideB(2), U: 2, K: wideKey(), N: wideSerial, Seq: 1, Body: string(body)}
+		if err := b.db.InsertOrUpdate(o); err != nil {
+			b.fail("insert", fmt.Sprintf("insert of an object with a %d byte field failed: %v", size, err))
+			return
+		}
+		check := func(db *sod.DB, when string) bool {
+			g, err := db.GetByUUID(&Wide{}, o.UUID())
+			if err != nil || g.(*Wide).Body != string(body) {
+				b.fail("get|"+when, fmt.Sprintf("%s: Get of the object with a %d byte field returns err %v (field intact: %v)", when, size, err, err == nil && g.(*Wide).Body == string(body)))
+				return false
+			}
+			all, err := db.All(&Wide{})
+			if err != nil || len(all) != 2 {
+				b.fail("all|"+when, fmt.Sprintf("%s: All returns %d objects (%v), expected 2", when, len(all), err))
+				return false
+			}
+			objs, err := db.Search(&Wide{}, "U", ">=", 0).Collect()
+			if err != nil || len(objs) != 2 {
+				b.fail("search|"+when, fmt.Sprintf("%s: an unindexed search (reads every object) returns %d objects (%v), expected 2", when, len(objs), err))
+				return false
+			}
+			return true
+		}
+		if !check(b.db, "live handle") {
+			return
+		}
+		if err := b.db.Close(); err != nil {
+			b.fail("close", "Close failed: "+err.Error())
+			return
+		}
+		db2 := sod.Open(dbRoot)
+		if !check(db2, "new handle") || !check(db2, "new handle, second read") {
+			return
+		}
+		// lose the index: Repair reads every file
+		fsys := vfs.Cur
+		for _, p := range fsys.Paths(dbRoot) {
+			if len(p) > 12 && p[len(p)-12:] == "/schema.json" {
+				fsys.Del(p)
+			}
+		}
+		db3 := sod.Open(dbRoot)
+		if err := db3.Create(&Wide{}, cfg.Schema(&Wide{})); err != nil && !sod.IsIndexCorrupted(err) {
+			// (the new, empty index does not describe the files: reported as corruption, then repaired)
+			b.fail("recreate", "Create after losing schema.json failed: "+err.Error())
+			return
+		}
+		if err := db3.Repair(&Wide{}); err != nil {
+			b.fail("repair", fmt.Sprintf("Repair with an object of %d bytes failed: %v", size, err))
+			return
+		}
+		check(db3, "after Repair")
+		c.Count("evaluations", 1)
+	})
+}
+
+func runBigC04(c *Ctx) {
+	sizes := []int{0, 64, 128, 4096, 70000, 1<<20 + 7}
+	cfgs := []Cfg{{}, {Compress: true}, {Cache: true, Compress: true}, {Async: 2, Compress: true}}
+	if c.Tier == "thorough" {
+		sizes = append(sizes, 1, 255, 256, 511, 512, 1<<16, 1<<16+1, 3<<20)
+		cfgs = append(cfgs, Cfg{Cache: true}, Cfg{Async: 1, Lower: true, Ext: ".v1.obj"})
+	}
+	item := 0
+	for _, cfg := range cfgs {
+		for _, n := range sizes {
+			for _, rep := range []bool{true, false} {
+				item++
+				if item%c.NShards != c.Shard {
+					continue
+				}
+				for _, v := range bigValues(c, cfg, n, rep) {
+					c.Violation(v)
+				}
+				c.Count("transitions", 6)
+				c.Count("paths_replayed", 1)
+				key := fmt.Sprintf("bigvalue|%s|%d|%v", cfg.String(), n, rep)
+				c.Distinct("states", key)
+				c.Distinct("distinct_nontrivial", key)
+			}
+		}
+	}
+}
